@@ -348,8 +348,8 @@ func (state inSession) processReject(session *session, msg *Message, rej Message
 
 		// The rejected message is consumed - if it is the one that was expected. A message ahead of (or
 		// behind) the expected number must not use that number up: the message that really carries it
-		// would be refused as too low when it arrives.
-		if seqNum, err := msg.Header.GetInt(tagMsgSeqNum); err == nil && seqNum != session.store.NextTargetMsgSeqNum() {
+		// would be refused as too low when it arrives. A message without a readable MsgSeqNum carries no number.
+		if seqNum, err := msg.Header.GetInt(tagMsgSeqNum); err != nil || seqNum != session.store.NextTargetMsgSeqNum() {
 			return state
 		}
 
